@@ -90,6 +90,12 @@ func (runInfo *runInfoStruct) funcExpr() {
 	if funcExpr.VarArg {
 		inTypes[len(inTypes)-1] = interfaceSliceType
 	}
+	if len(inTypes)+2 > 128 {
+		// reflect.FuncOf takes at most 128 parameters and results together
+		runInfo.err = newStringError(funcExpr, "function has too many parameters")
+		runInfo.rv = nilValue
+		return
+	}
 	// create funcType, output is always slice of reflect.Type with two values
 	funcType := reflect.FuncOf(inTypes, []reflect.Type{reflectValueType, reflectValueType}, funcExpr.VarArg)
 
